@@ -248,3 +248,59 @@ func VerifC02_Shape(cs int) {
 	o2 := vDecode(norm, false, invalidIndents)
 	VsAssert("shape-normal-form-is-a-fixpoint", !o2.panicked && o2.err == nil && o2.doc != nil && o2.doc.String() == norm)
 }
+
+func vAllNodes(n Node, into *Nodes) {
+	*into = append(*into, n)
+	for _, c := range n.Nodes() {
+		vAllNodes(c, into)
+	}
+}
+
+// VerifC02_NormalForm: near-grammar lines (runs of blanks and tabs after the level, after the xref and
+// before the value; hostile bytes inside the xref): whatever the decoder accepts must be a tree whose
+// pointers are free of '@' and whose encoding is a fixpoint (it decodes to the same tree and encodes
+// to the same text again). cs%4: decoder options, cs/4%4: where the symbolic separator sits.
+func VerifC02_NormalForm(cs int) {
+	multiLine, invalidIndents := cs%2 == 1, cs/2%2 == 1
+	sep := VsBytesIn("sep", VsChoose("seplen", 3)+1, " \t")
+	var text string
+	switch cs / 4 % 4 {
+	case 0:
+		text = "0 HEAD\n0 @I1@" + sep + "INDI\n1 NAME Joe /Bloggs/\n0 TRLR\n"
+	case 1:
+		text = "0 HEAD\n0 @" + VsBytes("x", 2, 0x20, 0x7e) + "@ INDI\n1 NAME Joe /Bloggs/\n0 TRLR\n"
+	case 2:
+		text = "0 HEAD\n0" + sep + "@I1@ INDI\n1" + sep + "NAME Joe /Bloggs/\n0 TRLR\n"
+	default:
+		text = "0 HEAD\n0 @I1@ INDI\n1 NAME" + sep + "Joe" + sep + "/Bloggs/" + sep + "\n0 TRLR\n"
+	}
+	o := vDecode(text, multiLine, invalidIndents)
+	VsObserve(text)
+	VsObserve(o.panicked)
+	VsObserve(o.err != nil)
+	VsReach("near-grammar-decoded")
+	vCheckTotality(o, invalidIndents, text)
+	if o.panicked || o.err != nil || o.doc == nil {
+		return
+	}
+	var all Nodes
+	for _, n := range o.doc.Nodes() {
+		vAllNodes(n, &all)
+	}
+	clean := true
+	for _, n := range all {
+		p := n.Pointer()
+		for i := 0; i < len(p); i++ {
+			clean = VsAnd(clean, p[i] != '@')
+		}
+	}
+	VsAssert("accepted-pointers-hold-no-at-sign", clean)
+	norm := o.doc.String()
+	o2 := vDecode(norm, multiLine, invalidIndents)
+	VsAssert("near-grammar-normal-form-is-accepted", !o2.panicked && o2.err == nil && o2.doc != nil)
+	if o2.panicked || o2.err != nil || o2.doc == nil {
+		return
+	}
+	VsAssert("near-grammar-normal-form-decodes-to-same-tree", vSameDocument(o.doc, o2.doc))
+	VsAssert("near-grammar-normal-form-is-a-fixpoint", VsStrEq(o2.doc.String(), norm))
+}
